@@ -323,10 +323,29 @@ SpecialProg(k) ==
     [] k = "tfilter-int-array-type" -> <<Set("r", CollectE(TFilterE(IterE(AnyArr), WArr(WInt)))), Set("m", MutE(WInt, I(0))), For("e", IterE(V("r")), Block(<<Asg("+=", V("m"), I(1))>>)), Deref(V("m"))>>
     [] k = "tfilter-any-array-type" -> <<Set("r", CollectE(TFilterE(IterE(AnyArr), WArr(WAny)))), Set("m", MutE(WInt, I(0))), For("e", IterE(V("r")), Block(<<Asg("+=", V("m"), I(1))>>)), Deref(V("m"))>>
     [] k = "tfilter-nested-empty-array-type" -> <<Set("r", CollectE(TFilterE(IterE(AnyArr), WArr(WArr(WNever))))), Set("m", MutE(WInt, I(0))), For("e", IterE(V("r")), Block(<<Asg("+=", V("m"), I(1))>>)), Deref(V("m"))>>
+TupSrc == Hide(WArr(WTup(<<WInt, WStr>>)), ArrE(<<TupE(<<I(1), S(<<97>>)>>), TupE(<<I(2), S(<<98>>)>>), TupE(<<I(4), S(<<97>>)>>)>>))
+PairTy == WTup(<<WInt, WStr>>)
+\* elements that are TUPLES reach the callbacks whole (a callback of one parameter receives the pair, not its first component)
+TupleProg(k) ==
+  CASE k = "map-over-tuples" -> <<RedE("$+", "int", MapE(IterE(TupSrc), FnE(<<P("p", PairTy)>>, WInt, <<Ret(Bin("*", TupAt(V("p"), 0), I(2)))>>)))>>
+    [] k = "filter-tuples" -> <<RedE("$+", "int", MapE(FilterE(IterE(TupSrc), FnE(<<P("p", PairTy)>>, WBool, <<Ret(Bin("==", TupAt(V("p"), 1), S(<<97>>)))>>)),
+                                                       FnE(<<P("p", PairTy)>>, WInt, <<Ret(TupAt(V("p"), 0))>>)))>>
+    [] k = "partition-tuples" -> <<Set("h", PartE(IterE(TupSrc), FnE(<<P("p", PairTy)>>, WBool, <<Ret(Bin(">", TupAt(V("p"), 0), I(1)))>>))),
+                                   Set("n", MutE(WInt, I(0))), For("e", IterE(TupAt(V("h"), 0)), Block(<<Asg("+=", V("n"), TupAt(V("e"), 0))>>)), Deref(V("n"))>>
+    [] k = "map-identity-tuples" -> <<Set("r", CollectE(MapE(IterE(TupSrc), FnE(<<P("p", PairTy)>>, PairTy, <<Ret(V("p"))>>)))),
+                                      Set("w", IfSet("q", WArr(PairTy), V("r"), I(100), I(0))), Bin("+", TupAt(At(V("r"), I(2)), 0), V("w"))>>
+    [] k = "reduce-tuples" -> <<ReduceE(IterE(TupSrc), I(0), FnE(<<P("a", WAny), P("p", WAny)>>, WInt,
+                                   <<IfSet("ya", WInt, V("a"), Block(<<IfSet("yp", PairTy, V("p"), Block(<<Ret(Bin("+", V("ya"), TupAt(V("yp"), 0)))>>), NoneV)>>), NoneV), Ret(I(-1))>>))>>
+    [] k = "call-with-one-tuple" -> <<FnDecl("fst", <<P("p", PairTy)>>, WInt, <<Ret(TupAt(V("p"), 0))>>), Set("t", Hide(PairTy, TupE(<<I(8), S(<<97>>)>>))),
+                                      Bin("+", CallE(V("fst"), <<V("t")>>), CallE(V("fst"), <<TupE(<<I(1), S(<<98>>)>>)>>))>>
 SpecialSeq == << <<"fold-over-void", 206>>, <<"fold-over-void-results", 3>>, <<"collect-void", 6>>, <<"for-over-void", 5>>, <<"filter-void", 1>>,
                  <<"tfilter-empty-array-type", 2>>, <<"tfilter-int-array-type", 3>>, <<"tfilter-any-array-type", 4>>,
-                 <<"tfilter-nested-empty-array-type", 3>> >>
-SpecialOut(i) == Outcome(Run(SpecialProg(SpecialSeq[i][1]), Fuel))
+                 <<"tfilter-nested-empty-array-type", 3>>,
+                 <<"map-over-tuples", 14>>, <<"filter-tuples", 5>>, <<"partition-tuples", 6>>, <<"map-identity-tuples", 104>>,
+                 <<"reduce-tuples", 7>>, <<"call-with-one-tuple", 9>> >>
+TupleKinds == {"map-over-tuples", "filter-tuples", "partition-tuples", "map-identity-tuples", "reduce-tuples", "call-with-one-tuple"}
+SpecialProgOf(k) == IF k \in TupleKinds THEN TupleProg(k) ELSE SpecialProg(k)
+SpecialOut(i) == Outcome(Run(SpecialProgOf(SpecialSeq[i][1]), Fuel))
 SpecialLaw == \A i \in 1..Len(SpecialSeq) :
   \/ (SpecialOut(i).status = "value" /\ SpecialOut(i).v = IntV(SpecialSeq[i][2]))
   \/ (PrintT(<<"SPECIALLAW", SpecialSeq[i], SpecialOut(i)>>) /\ FALSE)
@@ -368,6 +387,6 @@ Emit ==
         \o [i \in 1..Len(UESeq) |-> [id |-> "c11-union-iter-empty-" \o ToString(i), suite |-> "c11",
                                      prog |-> UEProg(UESeq[i][1], UESeq[i][2]), exp |-> UEOut(i)]]
         \o [i \in 1..Len(SpecialSeq) |-> [id |-> "c11-special-" \o SpecialSeq[i][1], suite |-> "c11",
-                                     prog |-> SpecialProg(SpecialSeq[i][1]), exp |-> SpecialOut(i)]])
+                                     prog |-> SpecialProgOf(SpecialSeq[i][1]), exp |-> SpecialOut(i)]])
   /\ PrintT(<<"CASES", N, Len(CaseSeq0)>>)
 =============================================================================
